@@ -120,7 +120,7 @@ func selectPrestates(shape hshape, all []prestate, n int, r *core.Rng) []prestat
 				c = "other"
 				recorded = true
 			}
-			if snap == "" {
+			if snap == noFiles {
 				c += "/no-input"
 			}
 			if missingLiteral(&t, p.st.Files) {
@@ -273,8 +273,8 @@ func c10ApplyFault(c *core.Ctx, sb *sandbox, k c10case, pre hstate, points []tra
 	case "point":
 		env = []string{"VERIF_FAULTS=crash@*#" + arg}
 	case "kill":
-		_ = os.WriteFile(filepath.Join(sb.Flags, "kill."+arg), nil, 0o644)
-		defer os.Remove(filepath.Join(sb.Flags, "kill."+arg))
+		_ = os.WriteFile(filepath.Join(sb.Flags, "kill."+flagOf(arg)), nil, 0o644)
+		defer os.Remove(filepath.Join(sb.Flags, "kill."+flagOf(arg)))
 	case "torn":
 		idx, l, _ := strings.Cut(arg, ":")
 		env = []string{"VERIF_FAULTS=crash@cache.dump.pre#" + idx}
